@@ -317,7 +317,13 @@ func (f CallableFunctionSchema) Call(arguments []any) (any, error) {
 	for i := 0; i < gotArgs; i++ {
 		args[i] = reflect.ValueOf(arguments[i])
 	}
-	result := f.Handler.Call(args)
+	var result []reflect.Value
+	if f.Handler.Type().IsVariadic() {
+		// The last argument already is the slice the variadic parameter was declared (and validated) as.
+		result = f.Handler.CallSlice(args)
+	} else {
+		result = f.Handler.Call(args)
+	}
 	gotReturns := len(result)
 	expectedReturnVals := 0
 	if f.StaticOutputValue != nil || f.DynamicTypeHandler != nil {
